@@ -117,14 +117,21 @@ def gen_shuffle(r, tier):
             allc.append(f"F{i}")
         temps = [r.range((lo_all - 5) * 1000, (hi_all + 5) * 1000) for _ in range(r.range(15, 40))]
         temps += [r.pick(temps) + r.range(-3000, 3000) for _ in range(10)]
+        # the clock: standing still in half of the cases (as before); in the others it moves between the temperature changes
+        # by nothing, a fraction of the controller tick (200 ms) or more than a tick - a curve's value is a function of the
+        # temperature whenever it is asked (seed C07l: member results were reused for half a tick)
+        now = 1000
+        moving = r.chance(0.5)
         for t in r.shuffle(temps):
+            if moving:
+                now += r.pick([0, 0, 30_000_000, 60_000_000, 150_000_000, 400_000_000])
             ops.append(f"cv.sensor id=s0 avg={fx(float(t))} val={fx(float(t))}")
             for c in allc:
-                ops.append(f"cv.eval id={c} now=1000")
+                ops.append(f"cv.eval id={c} now={now}")
                 if c.startswith("F") and r.chance(0.4):
                     # two controllers sharing the curve evaluate it at the same moment (the first suspended inside a
                     # member's sensor read): both results are values of the curve at this temperature
-                    ops.append(f"cv.evalpair id={c} gate=s0 n={r.range(1, 3)} now=1000")
+                    ops.append(f"cv.evalpair id={c} gate=s0 n={r.range(1, 3)} now={now}")
     return ops
 
 
